@@ -280,4 +280,38 @@ theorem C50_missing_404_partial (cfg : Cfg) (method path : Str) (encs : List Enc
     | tooLong => exact absurd hr h3)
   rw [this]
 
+/-! ### hot reloads -/
+
+/-- **C50_reload_in_force**: whatever the history of reloads (same or different version strings, products
+    added / removed / moved to another root), the rules the handler sees for a product are exactly those of
+    the LAST loaded configuration. -/
+theorem C50_reload_in_force (cs : List SConf) (product : Str) :
+    slookup (stableAfter cs) product = sInForce cs product := by
+  unfold stableAfter sInForce
+  have h : ∀ (t : List (Str × List SRule)), cs.foldl supdate t =
+      match cs.getLast? with | some c => c.products | none => t := by
+    induction cs with
+    | nil => intro t; rfl
+    | cons c cs ih =>
+      intro t
+      simp only [List.foldl_cons]
+      rw [ih]
+      cases cs with
+      | nil => rfl
+      | cons d ds =>
+        cases hl : (d :: ds).getLast? with
+        | none => simp at hl
+        | some x => simp [List.getLast?_cons_cons, hl]
+  rw [h]
+  cases cs.getLast? <;> rfl
+
+/-- **C50_reload_last_conf**: after any history of reloads the last loaded configuration alone decides the
+    answer — in particular the document root in force is the configured one, never an earlier one. -/
+theorem C50_reload_last_conf (tree : List Entry) (sb : List Str) (cs : List SConf) (c : SConf)
+    (product method path : Str) (encs : List Enc) :
+    serveH tree sb (cs ++ [c]) product method path encs = serveH tree sb [c] product method path encs := by
+  unfold serveH
+  rw [C50_reload_in_force, C50_reload_in_force]
+  simp [sInForce]
+
 end BfeVerif.C50
